@@ -27,4 +27,13 @@ PROPS = {
                         "is.InTesting() is decided from os.Args at init (harness.test -test.v emulates go test)"],
         "trusted": ["os.Exit / panic semantics of the Go runtime; is.InTesting()"],
     },
+    "C17": {
+        "modules": ["Logg.Props.C17"],
+        "bridge_modules": ["Logg.Bridge.Registry"],
+        "flavor": "test",
+        "thorough_seeds": 3,
+        "explanation": "Registry = the seven tables (initial value regenerated from the composite literals). Theorems: refusal of used value/title, refusal is a no-op, invariant Consistent (title maps back to its level) holds for the regenerated tables (decide) and is preserved by every registration, hence after every history (induction); name/text/JSON round trips; registered behaviour; ShortTag length. Correspondence: random registration histories with all lookups after every step.",
+        "assumptions": ["strings.ToLower agrees with ASCII lower-casing on ASCII input (probe strings with letters outside ASCII are used verbatim only)",
+                        "the JSON round trip theorem is stated for any quoting function with a left inverse; that of the encoder's Go-syntax quoting is C05's unquote_quote"],
+    },
 }
